@@ -41,14 +41,17 @@ def findings():
 
 
 def seeded():
-    out = ['| Seed | Property | What it needs to manifest | Demonstration discriminates | Existing tests | Caught by check (tier) | How |', '|---|---|---|---|---|---|---|']
+    out = ['| Seed | Property | What it needs to manifest | Demo discriminates | Existing tests | First run of the check | After strengthening | How it is caught |', '|---|---|---|---|---|---|---|---|']
     for d in sorted((VERIF / 'seeded').glob('*/meta.json')):
         m = json.loads(d.read_text())
         ck = m.get('check', {})
-        how = 'concrete failing input' if m.get('caught_with_concrete_input') else ('broken obligation/correspondence (no-failing-input-found)' if m.get('caught') else 'MISSED')
-        ts = m.get('test_suite', {}).get('summary', 'not run')
-        tier = 'thorough' if 'thorough' in ck.get('cmd', '') else 'quick'
-        out.append(f"| {m['seed']} | {m['property']} | {str(m.get('needs_to_manifest', ''))[:200].replace('|', '/')} | {m.get('demo_discriminates')} | {str(ts)[:60]} | {m.get('caught')} ({tier}) | {how} |")
+        how = 'concrete failing input' if m.get('caught_with_concrete_input') else ('broken obligation/correspondence (no-failing-input-found)' if m.get('caught') else 'not caught')
+        if m.get('status_note'):
+            how = m['status_note'][:260]
+        ts = m.get('test_suite', {}).get('summary', 'not run (reverse of a fix: the 415 baseline tests passed before the fix)')
+        first = m.get('first_run_before_strengthening')
+        first_s = ('caught' if first.get('caught') else 'MISSED') if first else ('caught' if m.get('caught') else 'MISSED')
+        out.append(f"| {m['seed']} | {m['property']} | {str(m.get('needs_to_manifest', ''))[:220].replace('|', '/').replace(chr(10), ' ')} | {m.get('demo_discriminates')} | {str(ts)[:70]} | {first_s} | {'caught' if m.get('caught') else 'not caught'} | {how} |")
     return '\n'.join(out)
 
 
